@@ -24,7 +24,8 @@ RUNS = {"quick": 2500, "thorough": 150000}
 WALL_LIMIT = {"quick": 1200, "thorough": 5 * 3600}
 PROBES = ["decorated_more_than_once", "hed_string_context_pushed_by_caller", "warnings_off_run", "issue_with_offsets", "sort_checked",
           "json_checked", "entry_string", "entry_sidecar", "entry_table", "direct_format_subtag", "handler_shared_across_entry_points",
-          "printable_checked", "warning_issue_seen", "row_string_offsets"]
+          "printable_checked", "warning_issue_seen", "row_string_offsets",
+          "known_offending_fragment_checked", "redecorated_under_row_string"]
 RULE = ("Each run generates 2-5 annotation fragments (valid, unknown tag, extension, bad unit, empty element, unbalanced "
         "parenthesis, repeated tag, placeholder, bad character), a sidecar and a small table built from them, and a history of "
         "5-16 operations on one ErrorHandler: context pushes/pops, direct format_error_with_context with seeded sub-tag ranges, "
@@ -56,6 +57,8 @@ def _init():
     from hed.errors.error_types import ValidationErrors
     repo = os.environ.get("VERIF_REPO", "/repo")
     schema = load_schema(os.path.join(repo, "hed/schema/schema_data/HED8.3.0.xml"))
+    from hed.models.definition_dict import DefinitionDict
+    _W["dd"] = DefinitionDict(["(Definition/MyDef/#, (Label/#, Red))", "(Definition/Plain, (Blue))"], schema)
     _W.update(pd=pd, HedString=HedString, TabularInput=TabularInput, Sidecar=Sidecar, schema=schema, HedValidator=HedValidator,
               ErrorHandler=ErrorHandler, ErrorContext=ErrorContext, er=error_reporter, VE=ValidationErrors)
     return _W
@@ -64,6 +67,17 @@ def _init():
 FRAGS = ["Red", "Blue", "(Green, Square)", "Circle", "Red", "()", "(Blue, ())", "Grren", "Red/Crimson", "Duration/3 cm", "Item/Object/Junk", "Train/Maglev",
          "Train/Maglev/Fast", "Label/#", "Label/a b", "Red/", "Description/bad*chars", "(Onset, Face)", "Age/12", "(Yellow, (Star, Black))",
          "Purple-color/Purple/Deep", "Label/ok-1"]
+FRAGS += ["Def/MyDef/a$b", "Def/MyDef/ok", "Def/Plain", "Label/a$b", "Property/Informational-property/Label/a$b", "Informational-property/Label/x$y",
+          "Item/Object/Man-made-object/Vehicle/Train/Maglev",
+          "Property/Sensory-property/Sensory-attribute/Visual-attribute/Color/CSS-color/Red-color/Red/Crimson"]
+# fragments whose offending piece is known by construction: (code, exact text the offsets must select)
+EXPECT = {"Def/MyDef/a$b": ("CHARACTER_INVALID", "$"), "Label/a$b": ("CHARACTER_INVALID", "$"), "Property/Informational-property/Label/a$b": ("CHARACTER_INVALID", "$"),
+          "Informational-property/Label/x$y": ("CHARACTER_INVALID", "$"), "Label/a b": ("CHARACTER_INVALID", " "),
+          "Item/Object/Man-made-object/Vehicle/Train/Maglev": ("TAG_EXTENDED", "/Maglev"), "Train/Maglev": ("TAG_EXTENDED", "/Maglev"),
+          "Train/Maglev/Fast": ("TAG_EXTENDED", "/Maglev/Fast"), "Item/Object/Junk": ("TAG_EXTENDED", "/Junk"),
+          "Property/Sensory-property/Sensory-attribute/Visual-attribute/Color/CSS-color/Red-color/Red/Crimson": ("TAG_EXTENSION_INVALID", "Crimson"),
+          "Red/Crimson": ("TAG_EXTENSION_INVALID", "Crimson"), "Grren": ("TAG_INVALID", "Grren"), "Label/#": ("PLACEHOLDER_INVALID", "#"),
+          "Purple-color/Purple/Deep": ("TAG_EXTENSION_INVALID", "Deep")}
 STRUCT = ["dup", "empty", "paren"]
 
 
@@ -101,7 +115,7 @@ def generate(run_index, seed, tier):
             sidecar["other"] = {"Levels": {"HED": "Red"}}
     rows = []
     t = 0.0
-    for _ in range(g.randint(1, 4)):
+    for _ in range(g.pick([1, 2, 3, 4, 11, 12])):
         t += g.pick([0.5, 1.0])
         rows.append(["%g" % t, g.pick(strings + ["n/a", "Red", "Blue"]), g.pick(["go", "stop", "go", "n/a", "zzz"]), g.pick(["abc", "n/a", "7", "x"]),
                      g.pick(["a", "b", "n/a"])])
@@ -113,7 +127,7 @@ def generate(run_index, seed, tier):
         if r < 0.2:
             typ = g.pick(["FILE_NAME", "SIDECAR_COLUMN_NAME", "SIDECAR_KEY_NAME", "ROW", "COLUMN"])
             val = {"FILE_NAME": g.pick(["a.tsv", "b.json"]), "SIDECAR_COLUMN_NAME": g.pick(["tt", "val"]), "SIDECAR_KEY_NAME": g.pick(["go", "stop"]),
-                   "ROW": g.randrange(1, 9), "COLUMN": g.pick(["HED", "tt"])}[typ]
+                   "ROW": g.randrange(1, 16), "COLUMN": g.pick(["HED", "tt"])}[typ]
             ops.append(["push", typ, val])
             depth += 1
         elif r < 0.3 and depth > 0:
@@ -128,12 +142,16 @@ def generate(run_index, seed, tier):
         elif r < 0.7:
             ops.append(["table"])
             n_entry += 1
-        elif r < 0.8:
+        elif r < 0.76:
             ops.append(["format", g.randrange(len(strings)), g.randrange(0, 4), g.randrange(1, 6)])
+        elif r < 0.82:
+            ops.append(["row_redecorate", g.randrange(len(strings)), g.randrange(len(strings))])
         else:
             ops.append(["redecorate", g.randint(1, 3)])
     ops += [["redecorate", 1]] if g.chance(0.3) else []
     tail = g.shuffled([["sort"], ["filter"], ["printable"]])[:g.randint(1, 3)] + [["replace_json"]]
+    if g.chance(0.3) and len(rows) > 1:
+        rows = g.shuffled(rows)          # onsets out of order: the table entry point adds a file-level warning
     return {"strings": strings, "sidecar": sidecar, "rows": rows, "ops": ops + tail, "warnings": g.chance(0.7),
             "no_onset": g.chance(0.4)}
 
@@ -183,6 +201,7 @@ def _split_top(text):
 
 # ------------------------------------------------------------------------------------------- oracles
 SUFFIX = "Problem spans string indexes"
+_FORMATTED = set()      # ids of issues the harness created itself with arbitrary sub-tag ranges (format op)
 
 
 def _nows(s):
@@ -247,6 +266,13 @@ def _check_issue(W, i, where, viol, probe):
                 viol("offsets", "%s: %s offsets (%d, %d) = %r do not lie inside the named tag %r in %r" % (where, i["code"], ci, ce, frag, org, text),
                      "offsets-outside-named-tag")
                 return False
+        exp = EXPECT.get(org) if org and id(i) not in _FORMATTED else None
+        if exp and exp[0] == i["code"] and frag != exp[1]:
+            viol("offsets", "%s: %s on tag %r has offsets (%d, %d) selecting %r; the offending text is %r" % (where, i["code"], org, ci, ce, frag, exp[1]),
+                 "offsets-miss-the-offending-text-%s" % i["code"])
+            return False
+        if exp and exp[0] == i["code"]:
+            probe("known_offending_fragment_checked")
         body = msg.split(SUFFIX)[0]
         if frag.strip() and _nows(frag) not in _nows(body):
             viol("offsets", "%s: %s offsets (%d, %d) select %r, which the message does not quote: %r" % (where, i["code"], ci, ce, frag, body[:200]),
@@ -268,8 +294,9 @@ def execute(sc, script=None):
 
     EH, EC, er = W["ErrorHandler"], W["ErrorContext"], W["er"]
     schema = W["schema"]
-    validator = W["HedValidator"](schema)
+    validator = W["HedValidator"](schema, def_dicts=W["dd"])
     handler = EH(check_for_warnings=sc["warnings"])
+    _FORMATTED.clear()
     if not sc["warnings"]:
         probe("warnings_off_run")
     bag = []
@@ -296,7 +323,7 @@ def execute(sc, script=None):
 
     def run_entry(kind, arg, eh, push_hs=False):
         if kind == "string":
-            hs = W["HedString"](sc["strings"][arg], schema)
+            hs = W["HedString"](sc["strings"][arg], schema, W["dd"])
             if push_hs:
                 eh.push_error_context(EC.HED_STRING, hs)
             try:
@@ -305,8 +332,8 @@ def execute(sc, script=None):
                 if push_hs:
                     eh.pop_error_context()
         if kind == "sidecar":
-            return sidecar_obj().validate(schema, error_handler=eh)
-        return table_obj().validate(schema, error_handler=eh)
+            return sidecar_obj().validate(schema, extra_def_dicts=W["dd"], error_handler=eh)
+        return table_obj().validate(schema, extra_def_dicts=W["dd"], error_handler=eh)
 
     for oi, op in enumerate(sc["ops"]):
         if violations:
@@ -373,8 +400,29 @@ def execute(sc, script=None):
                     handler.pop_error_context()
                     for i in new:
                         decorated[id(i)] = 1
+                        _FORMATTED.add(id(i))
                     bag.extend(new)
                     trace.append(["format", sorted(map(str, map(_loc, new)))])
+            elif kind == "row_redecorate":
+                # cell-level issues decorated under the cell string, then again under the row string that is assembled
+                # from the cell strings (offsets move): the suffix must be replaced, not stacked
+                h1 = W["HedString"](sc["strings"][op[1]], schema)
+                h2 = W["HedString"](sc["strings"][op[2]], schema)
+                handler.push_error_context(EC.HED_STRING, h2)
+                new = validator.run_basic_checks(h2, allow_placeholders=False)
+                handler.add_context_and_filter(new)
+                handler.pop_error_context()
+                row = W["HedString"].from_hed_strings([h1, h2])
+                handler.push_error_context(EC.HED_STRING, row)
+                handler.add_context_and_filter(new)
+                handler.pop_error_context()
+                for i in new:
+                    decorated[id(i)] = 2
+                    if "char_index" in i:
+                        probe("redecorated_under_row_string")
+                        nontrivial = True
+                bag.extend(new)
+                trace.append(["row_redecorate", sorted(map(str, map(_loc, new)))])
             elif kind == "redecorate":
                 for _ in range(op[1]):
                     before = [dict(code=i["code"]) for i in bag]
